@@ -230,7 +230,55 @@ class KOArr(Kind):
         return [("match {v} {{ .some(a_) -> a_.push({n}), .none -> {{}} }}", mut)]
 
 
+class KEmptyArr(KArr):
+    """boundary: an array that is EMPTY when it is captured (a copy of it shares nothing either)"""
+    name, ty = "emptyarr", "array<int>"
+    annotate = True
+
+    def mk(self, a, b):
+        return "[]", []
+
+    def mutations(self):
+        return [("{v}.push({n})", lambda pv, n: pv.append(n))]
+
+
+class KEmptiedArr(KArr):
+    """an array emptied again before the capture"""
+    name, ty = "emptiedarr", "array<int>"
+
+    def mk(self, a, b):
+        return "{ let e_ = [%d]; e_.pop(); e_ }" % a, []
+
+    def mutations(self):
+        return [("{v}.push({n})", lambda pv, n: pv.append(n))]
+
+
+class KNestedEmpty(Kind):
+    name, ty = "nestedempty", "array<array<int>>"
+    annotate = True
+
+    def mk(self, a, b):
+        return "[[], [%d]]" % a, [[], [a]]
+
+    def mutations(self):
+        return [("{v}[0].push({n})", lambda pv, n: pv[0].append(n)),
+                ("{v}[1].push({n})", lambda pv, n: pv[1].append(n))]
+
+
+class KTupleEmpty(Kind):
+    name, ty = "tupleempty", "(int, array<int>)"
+    annotate = True
+
+    def mk(self, a, b):
+        return "(%d, [])" % a, (a, [])
+
+    def mutations(self):
+        return [("{{ let (t_a, t_b) = {v}; t_b.push({n}) }}", lambda pv, n: pv[1].append(n))]
+
+
 KINDS = [KInt(), KBool(), KVoid(), KStr(), KArr(), KNested(), KStrArr(), KTuple(), KMsg(), KShape(), KOArr()]
+# kinds that cannot carry a message identity: only for captured values (C08)
+EMPTY_KINDS = [KEmptyArr(), KEmptiedArr(), KNestedEmpty(), KTupleEmpty()]
 KIND_BY_NAME = {k.name: k for k in KINDS}
 
 
@@ -564,14 +612,14 @@ def gen_capture(r, nest=True):
     inside the task); both sides mutate their values in phases ordered by handshakes and report
     renderings. Under deep-copy-at-spawn semantics every rendering is determined. -> dict(src,
     expect, kinds, nmut)"""
-    kinds = r.sample([k for k in KINDS if k.name != "void"], r.range(2, 4))
+    kinds = r.sample([k for k in KINDS if k.name != "void"] + EMPTY_KINDS, r.range(2, 4))
     lines = [DECLS]
     vals = []      # [name, kind, model value, let/var] on the main side
     for i, k in enumerate(kinds):
         src, pv = k.mk(r.range(1, 9), r.range(0, 9))
         name = "v%d" % i
         mut = "var" if (not k.heap or r.chance(30)) else "let"
-        lines.append("%s %s%s = %s" % (mut, name, (": " + k.ty) if k.name == "option" else "", src))
+        lines.append("%s %s%s = %s" % (mut, name, (": " + k.ty) if k.name == "option" or getattr(k, "annotate", False) else "", src))
         vals.append([name, k, pv, mut])
     use_closure = r.chance(50)
     if use_closure:
